@@ -47,6 +47,9 @@ ATOMS = [
     ("l_tup2", lambda: ["(1;2)", "(3;4)"]), ("ll_int", lambda: [[1, 2]]),
     ("ll_str", lambda: [["1", "2"], ["3", "4"]]), ("l_tup_empty", lambda: ["(1;2)", ""]),
     ("s_tup_pad", lambda: "( 1 ; 2 )"),
+    # lists in which one item fits an n-tuple type and another does not
+    ("ll_mixed_len", lambda: [["1", "2"], ["1", "2", "3"]]), ("l_tup_mixed_len", lambda: ["(1;2)", "(1;2;3)"]),
+    ("l_tup_then_int", lambda: ["(1;2)", 5]), ("l_tup_open", lambda: ["(1;2)", "(3"]),
     # other python types
     ("dict", lambda: {"k": 1}), ("tuple", lambda: (1, 2)), ("set", lambda: {5}), ("gen", _gen),
     ("dt_for_date", lambda: DT1), ("date_for_dt", lambda: D1), ("bytes", lambda: b"ab"),
@@ -58,7 +61,7 @@ ATOM_NAMES = [n for n, _ in ATOMS]
 def dtypes_alphabet():
     from odml.dtypes import DType
     names = [None, "string", "text", "int", "float", "url", "datetime", "date", "time", "boolean",
-             "person", "2-tuple", "3-tuple", "str", "bool", "Int", "FLOAT", "Text", "foo", "0-tuple",
+             "person", "2-tuple", "3-tuple", "str", "bool", "Int", "FLOAT", "Text", "2-Tuple", "foo", "0-tuple",
              ""]
     members = [("DType." + m.name) for m in DType]
     return names + members
@@ -208,7 +211,7 @@ def alphabet(pool, level="full", history=()):
         atoms = [a for a in ATOM_NAMES if a in (
             "int", "true", "float", "str", "s_int", "s_float", "s_true", "s_date", "date", "datetime",
             "time_us", "s_iso_frac", "s_iso_offset", "dt_tz", "none", "empty", "l_mixed", "l_none", "l_empty_str", "s_brack", "s_tup2",
-            "s_tup3", "l_tup_empty", "ll_int", "dict", "set", "gen", "dt_for_date", "date_for_dt")]
+            "s_tup3", "l_tup_empty", "ll_int", "ll_mixed_len", "l_tup_mixed_len", "dict", "set", "gen", "dt_for_date", "date_for_dt")]
     for a in atoms:
         ops.append(["set_values", a])
     for t in dtypes_alphabet():
